@@ -127,11 +127,22 @@ func c17Case(run *evid.Run, i int) {
 		}
 	}
 	// write failures
-	failAt := -1
+	// (an outage lasts 1, 2, 3 or 6 consecutive block writes: a writer that tries again must not turn a write that
+	// never happened into a success)
+	failAt, failEnd := -1, -1
 	if i%5 == 3 {
 		failAt = 3 + rng.Intn(20)
+		failEnd = failAt + []int{0, 1, 2, 5}[(i/5)%4]
+		run.Count(fmt.Sprintf("histories_with_a_write_outage_of_%d", failEnd-failAt+1), 1)
 	}
-	st.AddFail = func(n int, c cid.Cid) bool { return n == failAt }
+	nFails := 0 // under the store's mutex; read between operations
+	st.AddFail = func(n int, c cid.Cid) bool {
+		if failAt >= 0 && n >= failAt && n <= failEnd {
+			nFails++
+			return true
+		}
+		return false
+	}
 
 	var pubs []*published
 	writers := map[int]bool{}
@@ -143,9 +154,13 @@ func c17Case(run *evid.Run, i int) {
 		}
 		o := hx.Observe(l)
 		// manifest
+		failsBefore := nFails
 		c, err := l.ToMultihash(x.W.Ctx)
+		if err == nil && nFails > failsBefore && !st.Has(c) {
+			run.Violate("C17/failed-write-reported-success", det("op", "ToMultihash", "codec", codec), wit(where), "ToMultihash returned %s without an error although the store refused the write(s) and does not hold that block", hx.Short(c.String()))
+		}
 		if err != nil {
-			if failAt >= 0 {
+			if nFails > failsBefore {
 				run.Count("publication_failed_by_injected_write_error", 1)
 			} else {
 				run.Violate("C17/publish-error", det("codec", codec), wit(where), "ToMultihash failed: %v", err)
@@ -181,7 +196,7 @@ func c17Case(run *evid.Run, i int) {
 				run.Violate("C17/denied-append-changed", det(), wit(where), "denied append changed the log: %s", df)
 			}
 		}
-		addsBefore := nAdds
+		failsBefore := nFails
 		var beforeRefused *hx.Obs
 		if s.ExpectsError() {
 			beforeRefused = hx.Observe(l)
@@ -202,9 +217,12 @@ func c17Case(run *evid.Run, i int) {
 		}
 		switch s.Op {
 		case "append":
-			failed := failAt > addsBefore && failAt <= nAdds+0 && res.Err != nil
+			if res.Err == nil && nFails > failsBefore && !st.Has(res.Entry.GetHash()) {
+				run.Violate("C17/failed-write-reported-success", det("op", "Append", "codec", codec), wit(where), "Append returned entry %s without an error although the store refused the write(s) and does not hold that block", hx.Short(res.Entry.GetHash().String()))
+				continue
+			}
 			if res.Err != nil {
-				if failAt >= 0 && (failed || nAdds == addsBefore) {
+				if nFails > failsBefore {
 					run.Count("append_failed_by_injected_write_error", 1)
 					if df := obsEqual(before, hx.Observe(l)); df != "" {
 						run.Violate("C17/failed-append-changed", det("codec", codec), wit(where), "append whose block write failed changed the log: %s", df)
@@ -290,6 +308,12 @@ func c17Case(run *evid.Run, i int) {
 	run.Count("publications", len(pubs))
 	// (b) crash-point enumeration
 	if codec != "pb" {
+		// one recovering process for the whole case: in the histories that say so (ReuseOptions) it keeps ONE options
+		// value and hands it to every load it performs, crash after crash
+		w2 := *x.W
+		if w2.ReuseOptions {
+			run.Count("histories_recovering_with_one_reused_options_value", 1)
+		}
 		for _, p := range pubs {
 			qs := []int{}
 			for q := p.Prefix; q <= W; q++ {
@@ -301,7 +325,6 @@ func c17Case(run *evid.Run, i int) {
 			}
 			for _, q := range qs {
 				ps := st.Prefix(q)
-				w2 := *x.W
 				w2.Store = ps
 				var loaded *ipfslog.IPFSLog
 				var err error
